@@ -122,6 +122,25 @@ def events_for_case(o, cid, g, g2, K, qs, ids):
         probe(ev, s2, swap_obj(o), 2, K, g, qs)
     except Exception as ex:  # noqa
         e["exc"] = sd.exc_str(ex)
+    # the subclass: per-group matrices before swap(), of the swapped object, and of the original again
+    if o["ep"] == 0 and o["en"] == 0 and (o["pos"] or o["neg"]):
+        e = ev("group_swap", h=1, a=[], b=[], a2=[])
+        try:
+            sg = sd.new_group_event(ev, o, g, h=6, seed=cid)
+            t2s, ths = grid(K, g)
+            th = np.array(ths)
+            rows = lambda x: [[[int(c[0, 0]), int(c[0, 1]), int(c[1, 0]), int(c[1, 1])] for c in grp]  # noqa
+                              for grp in np.asarray(x.group_cm(th).matrix)]
+            if cid % 2:
+                e["a"] = rows(sg)
+                e["b"] = rows(sg.swap())
+            else:
+                sw = sg.swap()
+                e["b"] = rows(sw)
+                e["a"] = rows(sg)
+            e["a2"] = rows(sg)
+        except Exception as ex:  # noqa
+            e["exc"] = sd.exc_str(ex)
     # negate + flip score_class: environment action on the inputs
     on = negate_obj(o)
     gn = neg_gamma(g)
